@@ -496,6 +496,51 @@ async fn step(w: &mut World, gates: &mut mpsc::UnboundedReceiver<GateEvent>, t: 
             } else {
                 vh::store_quoting_metrics(w.st(), &key, None).0
             };
+            // node mode: the figures the node SIGNS into a quote -- the real GetStoreQuote query handler (ant-node
+            // handle_query -> get_local_quoting_metrics -> create_quote_for_storecost) for an address not held
+            let mut qm = qm;
+            if w.node.is_some() {
+                use ant_node::verif_hooks::VerifNode;
+                use ant_protocol::messages::{Query, QueryResponse, Response};
+                let net = w._net.as_ref().expect("network handle").0.clone();
+                let me = w.me;
+                let mut x = [0u8; 32];
+                x[..8].copy_from_slice(&(w.paid as u64 + 77).to_be_bytes());
+                let addr = ant_protocol::NetworkAddress::from_chunk_address(ant_protocol::storage::ChunkAddress::new(XorName(x)));
+                let q = Query::GetStoreQuote { key: addr.clone(), nonce: None, difficulty: 0 };
+                let fut = VerifNode::handle_query(&net, q, ant_evm::RewardsAddress::default());
+                tokio::pin!(fut);
+                let mut spins = 0;
+                let resp = loop {
+                    if let std::task::Poll::Ready(r) = futures::poll!(&mut fut) { break Some(r); }
+                    tokio::task::yield_now().await;
+                    spins += 1;
+                    if spins > 10_000 { break None; }
+                    // serve only the metrics question; completion notes keep waiting for their scheduled step
+                    let mut keep = vec![];
+                    while let Some(cmd) = w.node.as_mut().and_then(|d| d.verif_try_recv_local_cmd()) {
+                        match cmd {
+                            LocalSwarmCmd::GetLocalQuotingMetrics { .. } => { let _ = w.node.as_mut().map(|d| d.verif_handle_local_cmd(cmd)); }
+                            LocalSwarmCmd::AddLocalRecordAsStored { key, record_type } => { let k = w.key_id(&key); keep.push(NoteItem { kind: "A", k, v: 0, key, ty: Some(record_type) }); }
+                            LocalSwarmCmd::RemoveFailedLocalRecord { key } => { let k = w.key_id(&key); keep.push(NoteItem { kind: "R", k, v: 0, key, ty: None }); }
+                            _ => {}
+                        }
+                    }
+                    w.notes.extend(keep);
+                };
+                match resp {
+                    Some(Response::Query(QueryResponse::GetStoreQuote { quote: Ok(quote), .. })) => {
+                        // the signed figures replace the directly read ones; a quote that does not verify for this node
+                        // or was made for another address reports impossible figures
+                        if quote.check_is_signed_by_claimed_peer(me) && quote.content == addr.as_xorname().unwrap_or_default() {
+                            qm = quote.quoting_metrics.clone();
+                        } else {
+                            qm.received_payment_count = usize::MAX / 2;
+                        }
+                    }
+                    other => { let _ = other; qm.received_payment_count = usize::MAX / 2 - 1; }
+                }
+            }
             // node mode: the store has the shipped capacity (16384), which the model calls MaxRecords
             let max = if w.node.is_some() { if qm.max_records == 16 * 1024 { w.cfg.max_records as i64 } else { qm.max_records as i64 } } else { qm.max_records as i64 - w.cfg.filler as i64 };
             out = json!({"close": qm.close_records_stored as i64 - w.cfg.filler as i64, "max": max, "pay": qm.received_payment_count});
